@@ -4,38 +4,7 @@ import json
 
 VERIF = os.path.dirname(os.path.dirname(os.path.abspath(__file__)))
 
-CHECKS = {
-    'C01': dict(
-        engine='progenum',
-        technique='bounded-exhaustive enumeration of SSA graph programs compiled by the real SynthDef; emitted bytes decoded by an independent SCgf reader and compared in polynomial normal form with a reference interpreter',
-        text='Every straight-line graph program over the leaf/constant/operator alphabet (all sharing patterns, all output options) up to 2 statements (3 with reduced pools in thorough) plus every operator method is compiled and its bytes are checked unit by unit against the AST meaning; this decides the property for all programs below the bound, which the hand-written tests (bytes never inspected) cannot.',
-        note='Trusted: mc/oracles/{scgf,poly,server_ops}.py and the reference interpreter in mc/graphprog.py. Bounds: 1 statement full pool, 2 statements small pool, 3 statements tiny pools (quick: 1/64 slice). Nothing is claimed for larger programs or other unit classes.',
-        ref='5 C01'),
-    'C16': dict(
-        engine='histbfs',
-        technique='explicit-state BFS over alloc/free/double-free histories x all tie-break answers on the real allocators, Server constructors and NodeIDAllocator, against an interval-set model',
-        text="Every history up to the depth bound, including every answer of the allocator's random tie-break, for every listed size, reserved offset and client address offset, is run on the real ContiguousBlockAllocator and on Bus/Buffer constructors of a real Server for clients 0-2. Each answer must be inside the client's partition and disjoint from live ranges; 'no space' is accepted only when the model has no free run. For sizes 4-5 the reachable state space is closed (any history length). Node ids are checked for range and distinctness across wrap-around for users 0, 1, 31.",
-        note='Trusted: mc/oracles/alloc_ref.py (interval set; equal per-client slices behind the i/o channels; 26-bit id window) and the state key (block table, free lists in dict order with identity, top). choice is the only nondeterminism (rebinding sc3.base.builtins.choice). reserve() and alloc_perm are not covered. The server level uses a never-booted Server with small option values.',
-        ref='5 C16'),
-    'C09': dict(
-        engine='histbfs',
-        technique='explicit-state BFS over all operation histories of the real TaskQueue/OscScore up to a depth, state-deduplicated, each step compared with a list reference model',
-        text='Every history of add/re-add/remove/pop/clear up to the depth bound is executed on the real TaskQueue and all queries are compared with a sorted-list model after every step; bounded exhaustive, so it covers every history (not a sample) below the bound.',
-        note='Trusted: the list model in mc/checks/c09.py; bound: depth 6 quick / 8 thorough over 3 priorities x 3 tasks; counters are abstracted to ranks in the state key (queue only compares them).',
-        ref='5 C09'),
-    'C19': dict(
-        engine='progenum',
-        technique='bounded-exhaustive Env specs/constructors vs reference array, _at constraints, decoded EnvGen inputs',
-        text='All envelope specifications of the enumerated families (level lists of 2-5 values, scalar/short/full time lists, all 14 documented shape names, numbers and mixed or wrapped curve lists, all release/loop node pairs, every standard constructor over 3-4 values per parameter including defaults) are checked: each encodes to exactly the documented EnvGen array, evaluates client-side to its levels at breakpoints / between neighbours inside segments / last level afterwards on a 1/8 s grid plus all breakpoints, and appears identically as float32 in the decoded EnvGen unit inputs of a built definition.',
-        note='Trusted: mc/oracles/env_ref.py (array layout, shape numbers, constructor breakpoints typed from the Env/EnvGen help) and a private SCgf v2 reader. Inside segments only betweenness is demanded, on documented shape domains. Multichannel/UGen levels, IEnvGen, circle, Env.step node numbering and values before t=0 are not covered.',
-        ref='5 C19'),
-    'C08': dict(
-        engine='schedx',
-        technique='stateless preemption- and lateness-bounded exploration of all interleavings of driver threads with the real clock threads under a cooperative scheduler and virtual time',
-        text='For 75+ scenario programs (2-3 threads issuing sched/sched_abs/clear/stop/tempo calls, tasks that re-schedule or raise) every schedule with <=1 preemption and <=1 late timer (thorough: 2+1 and 3+0) is executed on the real SystemClock/TempoClock/AppClock code; each trace is checked for exactly-once, not-early, not-late (no waiting for an unrelated deadline), (time, scheduling order) order, reschedule relative to scheduled time, survival of raising tasks, clear/stop cancellation, dead-lock and lock-free queue access.',
-        note='Trusted: mc/vthreading.py (cooperative threading + virtual time), the per-execution clock re-creation mirror in mc/seams.py, the trace oracle in mc/checks/c08.py. Interleavings only at synchronisation operations; arbitrary bytecode-level switches and real OS timing are not modelled. Bounds: preemptions/lateness as stated; executions run to a horizon.',
-        ref='5 C08'),
-}
+CHECKS = json.load(open(os.path.join(VERIF, 'mc', 'manifest_checks.json')))
 
 NOT_APPLICABLE = {}
 
